@@ -206,6 +206,70 @@ func flipBitRaw(b []byte, i int) []byte {
 
 func init() { generators["C11"] = genC11 }
 
+// affine arithmetic on y^2 = x^3 + a x + b over F_p, for constructing signatures whose ephemeral point has an
+// abscissa in [n, p) (then r = x - n: the comparison must be modulo n)
+type affPt struct{ x, y *big.Int } // nil x = infinity
+
+func (cv ecCurve) ab() (*big.Int, *big.Int) {
+	if cv.name == "p256" {
+		return new(big.Int).Sub(cv.p, big.NewInt(3)), hexInt("5ac635d8aa3a93e7b3ebbd55769886bc651d06b0cc53b0f63bce3c3e27d2604b")
+	}
+	return big.NewInt(0), big.NewInt(7)
+}
+
+func (cv ecCurve) add(P, Q affPt) affPt {
+	if P.x == nil {
+		return Q
+	}
+	if Q.x == nil {
+		return P
+	}
+	p := cv.p
+	var l *big.Int
+	if P.x.Cmp(Q.x) == 0 {
+		if new(big.Int).Mod(new(big.Int).Add(P.y, Q.y), p).Sign() == 0 {
+			return affPt{}
+		}
+		a, _ := cv.ab()
+		num := new(big.Int).Mul(P.x, P.x)
+		num.Mul(num, big.NewInt(3)).Add(num, a)
+		den := new(big.Int).ModInverse(new(big.Int).Mod(new(big.Int).Lsh(P.y, 1), p), p)
+		l = num.Mul(num, den).Mod(num, p)
+	} else {
+		num := new(big.Int).Sub(Q.y, P.y)
+		den := new(big.Int).ModInverse(new(big.Int).Mod(new(big.Int).Sub(Q.x, P.x), p), p)
+		l = num.Mul(num, den).Mod(num, p)
+	}
+	x3 := new(big.Int).Mul(l, l)
+	x3.Sub(x3, P.x).Sub(x3, Q.x).Mod(x3, p)
+	y3 := new(big.Int).Sub(P.x, x3)
+	y3.Mul(y3, l).Sub(y3, P.y).Mod(y3, p)
+	return affPt{x3, y3}
+}
+
+func (cv ecCurve) mul(k *big.Int, P affPt) affPt {
+	R := affPt{}
+	for i := k.BitLen() - 1; i >= 0; i-- {
+		R = cv.add(R, R)
+		if k.Bit(i) == 1 {
+			R = cv.add(R, P)
+		}
+	}
+	return R
+}
+
+// lift returns a point with abscissa x, or ok=false if x is not on the curve
+func (cv ecCurve) lift(x *big.Int) (affPt, bool) {
+	a, b := cv.ab()
+	rhs := new(big.Int).Mul(x, x)
+	rhs.Mul(rhs, x).Add(rhs, new(big.Int).Mul(a, x)).Add(rhs, b).Mod(rhs, cv.p)
+	y := new(big.Int).ModSqrt(rhs, cv.p)
+	if y == nil {
+		return affPt{}, false
+	}
+	return affPt{new(big.Int).Set(x), y}, true
+}
+
 func genC11(c *Ctx) {
 	nKeys, nMsg := 3, 3
 	if c.thorough() {
@@ -352,6 +416,43 @@ func genC11(c *Ctx) {
 					}
 					copy(sigBuf, twin)
 					verify("inplace/twin", fresh, hs.h, msgBuf, sigBuf)
+				}
+				// a VALID signature whose ephemeral point R has its abscissa in [n, p): r = R.x - n (the final comparison is
+				// modulo n). Constructed backwards: R with x = n + j, any s, then Q = r^-1 (s R - e G).
+				if mi == 0 {
+					gen := affPt{hexInt(map[string]string{"p256": "6b17d1f2e12c4247f8bce6e563a440f277037d812deb33a0f4a13945d898c296", "k256": "79be667ef9dcbbac55a06295ce870b07029bfcdb2dce28d959f2815b16f81798"}[cv.name]),
+						hexInt(map[string]string{"p256": "4fe342e2fe1a7f9b8ee7eb4a7c0f9e162bce33576b315ececbb6406837bf51f5", "k256": "483ada7726a3c4655da4fbfc0e1108a8fd17b448a68554199c47d08ffb10d4b8"}[cv.name])}
+					found := 0
+					for j := int64(1); j < 200 && found < 3; j++ {
+						R, ok := cv.lift(new(big.Int).Add(cv.n, big.NewInt(j)))
+						if !ok {
+							continue
+						}
+						found++
+						rr := big.NewInt(j)
+						ss := c.randMod(cv.n)
+						digest := []byte(hs.h.ComputeHash(msg))
+						e := new(big.Int).SetBytes(digest[:32])
+						// Q = r^-1 (s R - e G)
+						sR := cv.mul(ss, R)
+						eG := cv.mul(new(big.Int).Mod(e, cv.n), gen)
+						if eG.x != nil {
+							eG.y = new(big.Int).Sub(cv.p, eG.y)
+						}
+						Qp := cv.mul(new(big.Int).ModInverse(rr, cv.n), cv.add(sR, eG))
+						if Qp.x == nil {
+							continue
+						}
+						pkw, err := crypto.DecodePublicKey(cv.algo, append(be(Qp.x, 32), be(Qp.y, 32)...))
+						if err != nil {
+							continue
+						}
+						wsig := append(be(rr, 32), be(ss, 32)...)
+						verify("wraparound-r/valid", pkw, hs.h, msg, wsig)
+						verify("wraparound-r/twin", pkw, hs.h, msg, append(be(rr, 32), be(new(big.Int).Sub(cv.n, ss), 32)...))
+						verify("wraparound-r/r-plus-n", pkw, hs.h, msg, append(be(new(big.Int).Add(rr, cv.n), 32), be(ss, 32)...))
+						verify("wraparound-r/other-message", pkw, hs.h, append([]byte{7}, msg...), wsig)
+					}
 				}
 				// same key bytes on the other curve would not even decode in general; use the other curve's own key
 				_ = other
